@@ -1,6 +1,6 @@
 (* C19 - Command-line values mean what the manual says. *)
 From Coq Require Import ZArith List Bool.
-From V Require Import Base.Duration Base.Str Base.DurString Model.Flags Model.Pacer Proofs.FlagsProofs Proofs.DecimalProofs Proofs.DurStringProofs.
+From V Require Import Base.Duration Base.Str Base.DurString Model.Flags Model.Pacer Proofs.FlagsProofs Proofs.DecimalProofs Proofs.DurStringProofs Proofs.SizeProofs.
 Import ListNotations.
 Open Scope Z_scope.
 
@@ -117,6 +117,31 @@ Theorem resolver_addrs_default_port : forall a,
   normalize_addr a = Some (a ++ [58; 53; 51]).
 Proof. exact resolver_default_port_lemma. Qed.
 Print Assumptions resolver_addrs_default_port.
+
+(* -max-body: -1, and "<n><blanks><unit>" means n of the unit - for every n, every documented unit
+   spelling in any letter case (b, kb/kilo/kilobyte(s), mb, ..., eb; the shift is 10 per step) and
+   any blanks between them, as long as the product fits the flag's int64 *)
+Theorem maxbody_minus_one : maxbody_set [45; 49] = Some (-1).
+Proof. exact maxbody_minus1. Qed.
+Theorem maxbody_notation : forall n pad u sh,
+  0 <= n -> unit_shift (map to_lower u) = Some sh -> bits_unit u = false ->
+  nodig_head (pad ++ u) -> trim_space (pad ++ u) = u -> 0 <= sh -> n * 2 ^ sh < two63 ->
+  maxbody_set (udec n ++ pad ++ u) = Some (n * 2 ^ sh).
+Proof. exact maxbody_notation_lemma. Qed.
+Print Assumptions maxbody_notation.
+Example maxbody_notation_applies :   (* "28 KiloBytes": n = 28, pad = " ", u = "KiloBytes", shift 10 *)
+  let u := ascii [75; 105; 108; 111; 66; 121; 116; 101; 115]%nat in
+  unit_shift (map to_lower u) = Some 10 /\ bits_unit u = false /\ nodig_head ([32] ++ u) /\
+  trim_space ([32] ++ u) = u /\ 28 * 2 ^ 10 < two63 /\
+  maxbody_set (udec 28 ++ [32] ++ u) = Some 28672.
+Proof. repeat split; reflexivity. Qed.
+
+(* -dns-ttl: -1 (caching off), 0 (cache forever) and every duration as Go prints it *)
+Theorem dnsttl_meaning :
+  dnsttl_set [45; 49] = Some (-1) /\ dnsttl_set [48] = Some 0 /\
+  forall d, 0 < d < two63 -> dnsttl_set (dur_string d) = Some d.
+Proof. exact dnsttl_meaning_lemma. Qed.
+Print Assumptions dnsttl_meaning.
 
 (* -max-body: -1 and the documented notations (README.md:350-362), -dns-ttl: -1, 0, durations *)
 Example maxbody_values :
